@@ -37,7 +37,7 @@ class FakeTCP:
         return ("192.0.2.7", 40000) if name == "peername" else default
 
 
-def _mk_cert(kind: str, d: str, name: str) -> tuple[str, str, bytes]:
+def _mk_cert(kind: str, d: str, name: str, cn: str | None = None, serial: int | None = None) -> tuple[str, str, bytes]:
     from cryptography import x509
     from cryptography.hazmat.primitives import hashes, serialization
     from cryptography.hazmat.primitives.asymmetric import ec, ed25519, rsa
@@ -49,10 +49,10 @@ def _mk_cert(kind: str, d: str, name: str) -> tuple[str, str, bytes]:
         key = ec.generate_private_key(ec.SECP256R1())
     else:
         key = ed25519.Ed25519PrivateKey.generate()
-    subj = x509.Name([x509.NameAttribute(NameOID.COMMON_NAME, name)])
+    subj = x509.Name([x509.NameAttribute(NameOID.ORGANIZATION_NAME, "nv users"), x509.NameAttribute(NameOID.COMMON_NAME, cn or name)])
     now = datetime.datetime.now(datetime.timezone.utc)
     cert = (x509.CertificateBuilder().subject_name(subj).issuer_name(subj).public_key(key.public_key())
-            .serial_number(x509.random_serial_number()).not_valid_before(now - datetime.timedelta(days=1))
+            .serial_number(serial if serial is not None else x509.random_serial_number()).not_valid_before(now - datetime.timedelta(days=1))
             .not_valid_after(now + datetime.timedelta(days=30))
             .sign(key, None if kind == "ed25519" else hashes.SHA256()))
     cpath, kpath = os.path.join(d, name + ".pem"), os.path.join(d, name + ".key")
@@ -64,7 +64,7 @@ def _mk_cert(kind: str, d: str, name: str) -> tuple[str, str, bytes]:
 
 
 def state():
-    """server context + three client identities, created once per process"""
+    """server context + six client identities (three and their look-alikes), created once per process"""
     if _STATE.get("pid") != os.getpid():
         from nauyaca.security.pyopenssl_tls import create_pyopenssl_server_context
 
@@ -72,14 +72,21 @@ def state():
         atexit.register(shutil.rmtree, d, True)
         sc, sk, _ = _mk_cert("ec", d, "server")
         clients = {}
-        for i, kind in enumerate(("rsa", "ec", "ed25519"), start=1):
-            c, k, der = _mk_cert(kind, d, "client-" + kind)
+        # certificates 1..3: RSA / EC / Ed25519.  Certificates 4..6: look-alikes of 1..3 — self-signed with
+        # ANOTHER key (of another type) but the same subject = issuer name and the same serial number, i.e.
+        # everything that is public about the original except its key; their DER and fingerprint differ.
+        plan = [(1, "rsa", "client-1", 1001), (2, "ec", "client-2", 1002), (3, "ed25519", "client-3", 1003),
+                (4, "ec", "client-1", 1001), (5, "ed25519", "client-2", 1002), (6, "rsa", "client-3", 1003)]
+        for i, kind, cn, serial in plan:
+            c, k, der = _mk_cert(kind, d, f"client-{i}", cn=cn, serial=serial)
             ctx = ssl.SSLContext(ssl.PROTOCOL_TLS_CLIENT)
             ctx.check_hostname = False
             ctx.verify_mode = ssl.CERT_NONE
             ctx.load_cert_chain(c, k)
             # the property's definition of the fingerprint: SHA-256 of the DER certificate
-            clients[i] = {"kind": kind, "ctx": ctx, "der": der, "fp": "sha256:" + hashlib.sha256(der).hexdigest()}
+            clients[i] = {"kind": kind + ("" if i <= 3 else f" look-alike of certificate {i - 3}"), "ctx": ctx, "der": der,
+                          "fp": "sha256:" + hashlib.sha256(der).hexdigest()}
+        assert len({c["fp"] for c in clients.values()}) == len(clients)
         anon = ssl.SSLContext(ssl.PROTOCOL_TLS_CLIENT)
         anon.check_hostname = False
         anon.verify_mode = ssl.CERT_NONE
@@ -87,6 +94,14 @@ def state():
         _STATE.update(pid=os.getpid(), dir=d, server_ctx=create_pyopenssl_server_context(sc, sk, request_client_cert=True),
                       clients=clients, anon=anon)
     return _STATE
+
+
+CERT_IDS = (1, 2, 3, 4, 5, 6)
+
+
+def partner(cert_id: int) -> int:
+    """the certificate with the same names and serial number but another key"""
+    return cert_id + 3 if cert_id <= 3 else cert_id - 3
 
 
 def fingerprint(cert_id: int) -> str:
